@@ -41,9 +41,10 @@ PROP = Prop(
             "Proved for every well-formed list of frames (v0/v1 messages, compressed v0/v1 wrappers with rebasing, v2 batches, last one possibly cut short, "
             "then a stopping frame), every fetch offset, isolation level and every aborted list consistent with the log: returned records = "
             "Spec.C06.refRecords (records_eq_reference_partial), every reference record of the log is returned or at/after the next offset "
-            "(next_never_passes_unreturned_partial, incl. KAFKA-5443 and batches cut short), next offset within the whole batches (next_within_response). "
+            "(next_never_passes_unreturned_partial, incl. KAFKA-5443 and batches cut short), next offset within the whole batches (next_within_response), "
+            "hence the driver's predicate Spec.C06.holds on the model's result (spec_holds_partial); for all inputs the next offset is past every returned record (returned_below_next). "
             "Not proved: the same for aborted lists the property does not speak about (duplicates, transactions ended below the fetch offset: the full "
-            "statements are false there, kept in comments), the byte-level encoding relation, Spec.C06.holds clause 'returned offsets < next'. "
+            "statements are false there, kept in comments), the byte-level encoding relation (frames of an encoded log stand in Rep to it). "
             "Reported departure from the log format: v1 compressed wrapper marked LogAppendTime (key v1-wrapper-logappendtime-timestamp, corpus/C06).",
 )
 MANIFEST = {
@@ -57,7 +58,7 @@ MANIFEST = {
             "control, transactional, the last possibly cut short inside, then a truncated or failing frame), every fetch offset, isolation level and every "
             "aborted list consistent with that log, the returned records equal Spec.C06.refRecords in order and in every field, every record the reference "
             "decoder yields from the log (also beyond the response) is returned or lies at/after the next offset, and the next offset stays within the whole "
-            "batches. The model is tied to the code by differential runs (exact output equality), and the same reference decoder is evaluated on the "
+            "batches - i.e. the executable predicate Spec.C06.holds is a theorem about the model's result; for all inputs the next offset is past every returned record. The model is tied to the code by differential runs (exact output equality), and the same reference decoder is evaluated on the "
             "implementation's output against the generator's ground truth for mixed v0/v1/v2 logs, every codec, interleaved transactions, compaction gaps, "
             "empty batches, truncation at every byte and shuffled aborted lists.",
     "note": "Trusted: Lean kernel; the hand-written model (validated differentially, not extracted); CRC-32 and codecs are parameters (modelled, not verified); "
